@@ -154,7 +154,10 @@ impl DiskRowset {
                     let mut first_key: &[u8] = &index.first_key;
                     let first_val: i32 = PrimitiveFixedWidthEncode::decode(&mut first_key);
 
-                    if first_val > begin_val {
+                    // A block whose first key equals `begin_val` can be preceded by a block that
+                    // ends with the same key, so start from the last block whose first key is
+                    // *less* than `begin_val`.
+                    if first_val >= begin_val {
                         break;
                     }
                     pre_block_first_key = index.first_rowid;
